@@ -31,6 +31,7 @@ type folder struct {
 	init   *ssa.Function
 	stores map[*ssa.Global]ssa.Value
 	memo   map[ssa.Value]string
+	env    map[*ssa.Parameter]string // parameter bindings while folding a call of a pure string helper
 }
 
 func newFolder(pkg *ssa.Package) *folder {
@@ -71,10 +72,73 @@ func (f *folder) str(v ssa.Value, depth int) (string, bool) {
 				return f.str(val, depth+1)
 			}
 		}
+	case *ssa.Parameter:
+		if f.env != nil {
+			if s, ok := f.env[x]; ok {
+				return s, true
+			}
+		}
+	case *ssa.Phi:
+		// all edges fold to the same string
+		first, ok := "", false
+		for i, e := range x.Edges {
+			s, okE := f.str(e, depth+1)
+			if !okE {
+				return "", false
+			}
+			if i == 0 {
+				first, ok = s, true
+			} else if s != first {
+				return "", false
+			}
+		}
+		return first, ok
 	case *ssa.Call:
-		if cal := core.Callee(x); cal != nil && core.IsFunc(cal, "regexp", "QuoteMeta") {
+		cal := core.Callee(x)
+		if cal != nil && core.IsFunc(cal, "regexp", "QuoteMeta") {
 			s, ok := f.str(x.Call.Args[0], depth+1)
 			return regexp.QuoteMeta(s), ok
+		}
+		if cal != nil && core.IsFunc(cal, "strings", "Join") {
+			if sep, ok := f.str(x.Call.Args[1], depth+1); ok {
+				var parts []string
+				for _, e := range variadicElems(x.Call.Args[0]) {
+					s, okE := f.str(e, depth+1)
+					if !okE {
+						return "", false
+					}
+					parts = append(parts, s)
+				}
+				if len(parts) > 0 {
+					return strings.Join(parts, sep), true
+				}
+			}
+		}
+		// a pure string helper of the package: one return whose value folds with the arguments bound
+		if g := x.Call.StaticCallee(); g != nil && f.init != nil && g.Pkg == f.init.Pkg && len(g.Blocks) > 0 && g.Signature.Results().Len() == 1 {
+			rets := core.Returns(g)
+			if len(rets) != 1 {
+				return "", false
+			}
+			env := map[*ssa.Parameter]string{}
+			for i, pr := range g.Params {
+				if i >= len(x.Call.Args) {
+					return "", false
+				}
+				if g.Signature.Variadic() && i == len(g.Params)-1 {
+					continue // a variadic tail is folded through its elements where it is used
+				}
+				s, ok := f.str(x.Call.Args[i], depth+1)
+				if !ok {
+					return "", false
+				}
+				env[pr] = s
+			}
+			saved := f.env
+			f.env = env
+			s, ok := f.str(core.ReturnOperand(rets[0], 0), depth+1)
+			f.env = saved
+			return s, ok
 		}
 	}
 	return "", false
@@ -95,7 +159,54 @@ func (f *folder) regexGlobals() map[string]string {
 			continue
 		}
 		cal := core.Callee(c)
-		if cal == nil || cal.Pkg() == nil || cal.Pkg().Path() != "regexp" || !strings.Contains(cal.Name(), "Compile") {
+		isCompile := func(cal *types.Func) bool {
+			return cal != nil && cal.Pkg() != nil && cal.Pkg().Path() == "regexp" && strings.Contains(cal.Name(), "Compile")
+		}
+		if !isCompile(cal) {
+			// a package helper that compiles what it is given: `func anchored(e string) *regexp.Regexp { return regexp.MustCompile("^" + e + "$") }`
+			h := c.Call.StaticCallee()
+			if h == nil || f.init == nil || h.Pkg != f.init.Pkg || len(h.Blocks) == 0 {
+				continue
+			}
+			rets := core.Returns(h)
+			if len(rets) != 1 || len(rets[0].Results) == 0 {
+				continue
+			}
+			inner, isCall := core.ReturnOperand(rets[0], 0).(*ssa.Call)
+			if !isCall {
+				if ex, isEx := core.ReturnOperand(rets[0], 0).(*ssa.Extract); isEx {
+					inner, isCall = ex.Tuple.(*ssa.Call)
+				}
+			}
+			if !isCall || !isCompile(core.Callee(inner)) {
+				continue
+			}
+			env := map[*ssa.Parameter]string{}
+			okEnv := true
+			for i, pr := range h.Params {
+				if i >= len(c.Call.Args) {
+					okEnv = false
+					break
+				}
+				if sv, ok := f.str(c.Call.Args[i], 0); ok {
+					env[pr] = sv
+				} else {
+					okEnv = false
+				}
+			}
+			if !okEnv {
+				out[g.Name()] = "\x00unfoldable"
+				continue
+			}
+			saved := f.env
+			f.env = env
+			sv, ok := f.str(inner.Call.Args[0], 0)
+			f.env = saved
+			if ok {
+				out[g.Name()] = sv
+			} else {
+				out[g.Name()] = "\x00unfoldable"
+			}
 			continue
 		}
 		if s, ok := f.str(c.Call.Args[0], 0); ok {
@@ -388,7 +499,18 @@ func c15R3(p *core.Prog, r *core.Report) {
 		var refStore *ssa.Store
 		var others []*ssa.Store
 		// the three methods may share an unexported helper that works on its own copy of the reference
-		for _, fs := range fieldStores(sortedFuncs(core.Helpers(fn, 1)), func(n *types.Named, f string) bool { return n == rt }) {
+		scopeR3 := core.Helpers(fn, 1)
+		// one of the three may be written in terms of another (SetDigest = clear the tag, then AddDigest)
+		core.Calls(fn, func(c ssa.CallInstruction) {
+			if g := core.CalleeFn(c); g != nil && g != fn {
+				for _, sib := range []string{"SetTag", "SetDigest", "AddDigest"} {
+					if g == p.MethodOf(rt, sib) {
+						scopeR3[g] = true
+					}
+				}
+			}
+		})
+		for _, fs := range fieldStores(sortedFuncs(scopeR3), func(n *types.Named, f string) bool { return n == rt }) {
 			_, f := core.FieldAddrInfo(fs.Addr)
 			switch f {
 			case "Tag", "Digest":
@@ -443,6 +565,43 @@ func schemeConsts(fn *ssa.Function) map[string]bool {
 	}
 	for _, b := range fn.Blocks {
 		for _, in := range b.Instrs {
+			// a table lookup: the scheme indexes a package-level map whose keys are the known schemes
+			if lk, ok := in.(*ssa.Lookup); ok {
+				isSchemeIdx := isScheme(lk.Index)
+				if !isSchemeIdx {
+					// the local the scheme is held in before it is stored (a submatch of the scheme pattern)
+					for _, oc := range originCalls(lk.Index) {
+						if cal := core.Callee(oc); cal != nil && core.IsMethod(cal, "regexp", "Regexp", "FindStringSubmatch") {
+							isSchemeIdx = true
+						}
+					}
+				}
+				if u, isU := lk.X.(*ssa.UnOp); isU && isSchemeIdx {
+					if g, isG := u.X.(*ssa.Global); isG && fn.Pkg != nil {
+						if init := fn.Pkg.Func("init"); init != nil {
+							// the map value stored into the global, and the constant keys put into it
+							var mapVal ssa.Value
+							for _, ib := range init.Blocks {
+								for _, ii := range ib.Instrs {
+									if st, ok := ii.(*ssa.Store); ok && st.Addr == ssa.Value(g) {
+										mapVal = st.Val
+									}
+								}
+							}
+							for _, ib := range init.Blocks {
+								for _, ii := range ib.Instrs {
+									if mu, ok := ii.(*ssa.MapUpdate); ok && mapVal != nil && mu.Map == mapVal {
+										if k, isK := core.ConstString(mu.Key); isK {
+											out[k] = true
+										}
+									}
+								}
+							}
+						}
+					}
+				}
+				continue
+			}
 			bo, ok := in.(*ssa.BinOp)
 			if !ok || (bo.Op != token.EQL && bo.Op != token.NEQ) {
 				continue
@@ -460,7 +619,7 @@ func schemeConsts(fn *ssa.Function) map[string]bool {
 
 func c15R4(p *core.Prog, r *core.Report) {
 	const rule = "C15.R4"
-	r.Rule(rule, "scheme tables agree: every scheme accepted by New / NewHost is printed by CommonName, recognised by IsSetRepo, EqualRegistry and EqualRepository, and served by the client's scheme table", 2)
+	r.Rule(rule, "scheme tables agree: every scheme accepted by New / NewHost is printed by CommonName, recognised by IsSetRepo, EqualRegistry and EqualRepository, and served by the client's scheme table", 1)
 	newFn, newHost := p.Func("types/ref", "New"), p.Func("types/ref", "NewHost")
 	rt := p.Named("types/ref", "Ref")
 	if newFn == nil || newHost == nil || rt == nil {
